@@ -75,6 +75,7 @@ func runC22(s *simrt.Sim) {
 	useStd := seg == 0 && failAt < 0 && !src.ZeroReads
 	pos := 0       // bytes consumed so far
 	lastKind := "" // for Unread* legality
+	rlTaint := false // only Unread* / Peek / Buffered since the last ReadLine
 	lastRune := 0
 	nops := tp.Range(1, 60, "n_ops")
 	var log []string
@@ -210,7 +211,7 @@ func runC22(s *simrt.Sim) {
 			if useStd {
 				// (the fork keeps the Go 1.2 contract: the last byte of any read operation may be
 				// unread; modern bufio refuses in a few more situations - not a stream property)
-				if lastKind == "ReadLine" {
+				if lastKind == "ReadLine" || rlTaint {
 					// bufio's ReadLine may hand a trailing '\r' back to the buffer without updating
 					// what UnreadByte restores: the byte std gives back after it is not the last one it
 					// handed out. The stream oracle below stays in force; std is no reference from here.
@@ -300,6 +301,7 @@ func runC22(s *simrt.Sim) {
 		s.Checked(1)
 		if op == 3 {
 			lastKind = "ReadLine"
+			rlTaint = true
 			continue
 		}
 		if consumed > 0 {
@@ -324,6 +326,17 @@ func runC22(s *simrt.Sim) {
 		if err == io.EOF && pos < limit && desc[:4] != "Peek" {
 			fail("C22.stream", "early-eof", "%s reported EOF at offset %d of %d", desc, pos, limit)
 			return
+		}
+		switch op {
+		case 3:
+			rlTaint = true
+		case 5, 6, 8, 10:
+		case 0:
+			if consumed > 0 {
+				rlTaint = false
+			}
+		default:
+			rlTaint = false
 		}
 		switch {
 		case op == 0:
